@@ -53,6 +53,8 @@ def build_map(s):
     std = s.classes.get('outputs') == 'Outputs' and s.classes.get('economics') in ('Economics', 'SBTEconomics') \
         and s.classes.get('wellbores') in ('WellBores', 'SBTWellbores') and s.classes.get('surfaceplant', '').startswith('SurfacePlant') \
         and s.classes.get('surfaceplant') not in ('SurfacePlantAGS', 'SurfacePlantSUTRA', 'SurfacePlant')
+    if s.classes.get('outputs') == 'SUTRAOutputs':
+        return _build_map_sutra(s, cfg, M, put), cfg, True
     if not std:
         return M, cfg, False
     MW = 'MW'
@@ -344,12 +346,67 @@ def build_map(s):
     return M, cfg, True
 
 
+def _build_map_sutra(s, cfg, M, put):
+    """Report map of the SUTRA (reservoir thermal energy storage) writer, src/geophires_x/SUTRAOutputs.py."""
+    sp, wb, rs, ec = s.surfaceplant, s.wellbores, s.reserv, s.economics
+    put(S_SUM, 'Direct-Use heat breakeven price', ec.LCOH.value, ec.LCOH.CurrentUnits)
+    flow = float(np.mean(np.abs(_a(wb.ProductionWellFlowRates.value))))
+    for sec in (S_SUM, S_ENG):
+        put(sec, 'Number of Production Wells', wb.nprod.value, 'count')
+        put(sec, 'Number of Injection Wells', wb.ninj.value, 'count')
+        put(sec, 'Lifetime Average Well Flow Rate', flow, wb.ProductionWellFlowRates.CurrentUnits)
+        put(sec, 'Well depth', rs.depth.value, rs.depth.CurrentUnits)
+    em = cfg['econ']
+    if em == 1:
+        put(S_ECO, 'Fixed Charge Rate (FCR)', ec.FCR.value, ec.FCR.CurrentUnits)
+    elif em == 2:
+        put(S_ECO, 'Interest Rate', ec.interest_rate.value, ec.interest_rate.CurrentUnits)
+    put(S_ECO, 'Accrued financing during construction', ec.inflrateconstruction.value, ec.inflrateconstruction.CurrentUnits)
+    put(S_ECO, 'Project lifetime', sp.plant_lifetime.value, sp.plant_lifetime.CurrentUnits)
+    put(S_ENG, 'Pump efficiency', sp.pump_efficiency.value, sp.pump_efficiency.CurrentUnits)
+    put(S_ENG, 'Injection well casing ID', wb.injwelldiam.value, wb.injwelldiam.CurrentUnits)
+    put(S_ENG, 'Production well casing ID', wb.prodwelldiam.value, wb.prodwelldiam.CurrentUnits)
+    for nm, prm in (('Storage Well Temperature', wb.ProducedTemperature), ('Balance Well Temperature', wb.Tinj),
+                    ('Annual Heat Stored', rs.AnnualHeatStored), ('Annual Heat Supplied', rs.AnnualHeatSupplied)):
+        arr = _a(prm.value)
+        put(S_SIM, 'Maximum ' + nm, float(arr.max()), prm.CurrentUnits)
+        put(S_SIM, 'Average ' + nm, float(arr.mean()), prm.CurrentUnits)
+        put(S_SIM, 'Minimum ' + nm, float(arr.min()), prm.CurrentUnits)
+    put(S_SIM, 'Average Round-Trip Efficiency', float(np.mean(_a(rs.AnnualRTESEfficiency.value))), rs.AnnualRTESEfficiency.CurrentUnits)
+    put(S_SIM, 'Total Average Pressure Drop', float(np.mean(_a(wb.DPOverall.value))), wb.DPOverall.CurrentUnits)
+    for lab, prm in (('Average RTES Heating Production', sp.HeatProduced), ('Average Auxiliary Heating Production', sp.AuxiliaryHeatProduced),
+                     ('Average Annual RTES Heating Production', sp.AnnualHeatProduced),
+                     ('Average Annual Auxiliary Heating Production', sp.AnnualAuxiliaryHeatProduced),
+                     ('Average Annual Total Heating Production', sp.AnnualTotalHeatProduced),
+                     ('Average Annual Electricity Use for Pumping', sp.PumpingkWh)):
+        put(S_SUR, lab, float(np.mean(_a(prm.value))), prm.CurrentUnits)
+    put(S_SUR, 'Average Pumping Power', float(np.mean(_a(wb.PumpingPower.value))), wb.PumpingPower.CurrentUnits)
+    put(S_CAP, 'Drilling and Completion Costs', ec.Cwell.value, ec.Cwell.CurrentUnits)
+    c1p, c1i = float(ec.cost_one_production_well.value), float(ec.cost_one_injection_well.value)
+    if c1p != c1i:
+        put(S_CAP, 'Drilling and completion costs per production well', c1p, ec.cost_one_production_well.CurrentUnits)
+        put(S_CAP, 'Drilling and completion costs per injection well', c1i, ec.cost_one_injection_well.CurrentUnits)
+    else:
+        put(S_CAP, 'Drilling and Completion Costs per Well', float(ec.Cwell.value) / (int(wb.nprod.value) + int(wb.ninj.value)),
+            ec.Cwell.CurrentUnits)
+    put(S_CAP, 'Auxiliary Heater Cost', ec.peakingboilercost.value, ec.peakingboilercost.CurrentUnits)
+    if ec.has('Cpumps'):
+        put(S_CAP, 'Pump Cost', float(ec.Cpumps), ec.peakingboilercost.CurrentUnits)
+    put(S_CAP, 'Total Capital Costs', ec.CCap.value, ec.CCap.CurrentUnits)
+    put(S_OAM, 'Average annual auxiliary fuel cost', float(np.mean(_a(ec.annualngcost.value))), ec.annualngcost.CurrentUnits)
+    put(S_OAM, 'Average annual pumping cost', float(np.mean(_a(ec.annualpumpingcosts.value))), ec.annualpumpingcosts.CurrentUnits)
+    put(S_OAM, 'Total average annual O&M costs', float(np.mean(_a(ec.Coam.value))), ec.Coam.CurrentUnits)
+    return M
+
+
 def expected_tables(s, cfg):
     """title -> (rows of expected cell values, per-column unit-conversion spec or None)."""
     sp, wb, rs, ec = s.surfaceplant, s.wellbores, s.reserv, s.economics
     eu, pt, L, cy = cfg['enduse'], cfg['ptype'], cfg['life'], cfg['cy']
     steps = int(ec.timestepsperyear.value)
     T = {}
+    if s.classes.get('outputs') == 'SUTRAOutputs':
+        return T                         # the SUTRA writer prints no profile tables
     tp = _a(wb.ProducedTemperature.value)
     pp = _a(wb.PumpingPower.value)
     idx = [i * steps for i in range(L)]
